@@ -34,6 +34,7 @@ def pXArg : P (XArg Float) := do
   | "XN" => return .none
   | "XS" => return .pyScalar
   | "XO" => return .other (← pNat)
+  | "XV" => return .vec (← pList pFlt)
   | "XM" =>
     let n ← pNat; let c ← pNat
     return .mat n c (← pRows n c)
